@@ -2,3 +2,4 @@ pub mod engine;
 pub mod keys;
 pub mod replay;
 pub mod report;
+pub mod session;
